@@ -4,11 +4,14 @@ package idn
 
 import (
 	"bytes"
+	"crypto"
+	crand "crypto/rand"
 	"crypto/sha256"
 	"crypto/tls"
 	"crypto/x509"
 	"encoding/base64"
 	"encoding/json"
+	"encoding/pem"
 	"fmt"
 	"math/rand"
 	"net"
@@ -415,3 +418,46 @@ func (w *World) Stop() {
 }
 
 var netDialer = net.Dialer{Timeout: 5 * time.Second}
+
+// ExpireCache replaces the certificate in a complete cache file by one for the same key pair whose
+// validity ended an hour ago (what the passing of time does to the file's meaning).
+func ExpireCache(path string) error {
+	b, err := os.ReadFile(path)
+	if err != nil {
+		return err
+	}
+	reg, err := Layout(b)
+	if err != nil {
+		return err
+	}
+	certPEM, keyPEM := b[reg.CertHdrEnd:reg.CertEnd], b[reg.KeyHdrEnd:]
+	cb, _ := pem.Decode(certPEM)
+	kb, _ := pem.Decode(keyPEM)
+	if cb == nil || kb == nil {
+		return fmt.Errorf("cache file without PEM blocks")
+	}
+	old, err := x509.ParseCertificate(cb.Bytes)
+	if err != nil {
+		return err
+	}
+	key, err := x509.ParsePKCS8PrivateKey(kb.Bytes)
+	if err != nil {
+		return err
+	}
+	signer, ok := key.(crypto.Signer)
+	if !ok {
+		return fmt.Errorf("cached key cannot sign")
+	}
+	tmpl := *old
+	tmpl.NotBefore = time.Now().Add(-2 * time.Hour)
+	tmpl.NotAfter = time.Now().Add(-time.Hour)
+	der, err := x509.CreateCertificate(crand.Reader, &tmpl, &tmpl, signer.Public(), signer)
+	if err != nil {
+		return err
+	}
+	var nb bytes.Buffer
+	nb.Write(b[:reg.CertHdrEnd])
+	nb.Write(pem.EncodeToMemory(&pem.Block{Type: "CERTIFICATE", Bytes: der}))
+	nb.Write(b[reg.CertEnd:])
+	return os.WriteFile(path, nb.Bytes(), 0o600)
+}
